@@ -37,6 +37,7 @@ type c15Op struct {
 	Offset  int    `json:"offset,omitempty"`
 	Limit   int    `json:"limit,omitempty"`
 	Reverse bool   `json:"reverse,omitempty"`
+	Sub     []c15Op `json:"in_one_transaction,omitempty"` // op "tx": several writes committed (or rejected) together
 }
 
 type c15Scenario struct {
@@ -54,7 +55,19 @@ func c15GenOps(c *Ctx, n int, val *int) []c15Op {
 	var ops []c15Op
 	for i := 0; i < n; i++ {
 		*val++
-		switch g.Intn(9) {
+		switch g.Intn(10) {
+		case 9:
+			// several writes in one transaction, as the services do it (e.g. a task and its template association)
+			tx := c15Op{Op: "tx"}
+			for k, n := 0, g.Range(2, 3); k < n; k++ {
+				*val++
+				sub := c15Op{Op: []string{"create", "put", "put", "replace", "delete"}[g.Intn(5)], ID: g.Pick(c15IDs)}
+				if sub.Op != "delete" {
+					sub.Kind, sub.Val = g.Pick(c15Kinds), *val
+				}
+				tx.Sub = append(tx.Sub, sub)
+			}
+			ops = append(ops, tx)
 		case 0, 1:
 			ops = append(ops, c15Op{Op: "create", ID: g.Pick(c15IDs), Kind: g.Pick(c15Kinds), Val: *val})
 		case 2:
@@ -124,6 +137,21 @@ func (m c15Model) list(op c15Op) []string {
 // apply returns the expected result string of op on m (mutating m).
 func (m c15Model) apply(op c15Op) string {
 	switch op.Op {
+	case "tx":
+		// all or nothing: the first rejected write rejects the transaction
+		t := m.clone()
+		for _, sub := range op.Sub {
+			if r := t.apply(sub); strings.HasPrefix(r, "err:") {
+				return r
+			}
+		}
+		for k := range m {
+			delete(m, k)
+		}
+		for k, v := range t {
+			m[k] = v
+		}
+		return "ok"
 	case "create":
 		if _, ok := m[op.ID]; ok {
 			return "err:exists"
@@ -177,6 +205,26 @@ func c15Exec(s *storage.IndexedStore, op c15Op) string {
 		return "err:" + err.Error()
 	}
 	switch op.Op {
+	case "tx":
+		return res(s.Store().Update(func(tx storage.Tx) error {
+			for _, sub := range op.Sub {
+				var err error
+				switch sub.Op {
+				case "create":
+					err = s.CreateTx(tx, &c15Obj{sub.ID, sub.Kind, sub.Val})
+				case "put":
+					err = s.PutTx(tx, &c15Obj{sub.ID, sub.Kind, sub.Val})
+				case "replace":
+					err = s.ReplaceTx(tx, &c15Obj{sub.ID, sub.Kind, sub.Val})
+				case "delete":
+					err = s.DeleteTx(tx, sub.ID)
+				}
+				if err != nil {
+					return err
+				}
+			}
+			return nil
+		}))
 	case "create":
 		return res(s.Create(&c15Obj{op.ID, op.Kind, op.Val}))
 	case "put":
@@ -353,6 +401,8 @@ func c15Hist(ops []c15Op) string {
 	var ss []string
 	for _, o := range ops {
 		switch o.Op {
+		case "tx":
+			ss = append(ss, "tx{"+c15Hist(o.Sub)+"}")
 		case "list":
 			ss = append(ss, fmt.Sprintf("list(%s,%q,%d,%d,rev=%v)", o.Index, o.Pattern, o.Offset, o.Limit, o.Reverse))
 		case "get", "delete":
